@@ -165,7 +165,10 @@ def load_db(gd):
 def pool(r, quick):
     names = views.shipped_gene_names()
     names = [n for n in names if os.path.isfile(os.path.join(lib.REPO, f"aldy/resources/genes/{n}.yml"))]
-    chosen = r.sample(names, 6) + ["cyp2a6", "tpmt", "nat1"] if quick else names  # tpmt, nat1: databases with reference patches
+    # quick: the databases with long reference spans / many variants are left to the thorough tier (the model's coordinate
+    # maps are association lists)
+    small = [n for n in names if n not in ("dpyd", "ryr1", "cyp2d6", "cftr", "g6pd", "cacna1s")]
+    chosen = r.sample(small, 6) + ["cyp2a6", "tpmt", "nat1"] if quick else names  # tpmt, nat1: databases with reference patches
     out = []
     for n in dict.fromkeys(chosen):
         for genome in ("hg19", "hg38"):
